@@ -129,6 +129,12 @@ class BiWordFilter(Filter):
 
         single = None
         for token in tokens:
+            # Stop words that a StopFilter kept in the stream (marked as
+            # stopped, e.g. for highlighting) are not part of any bi-word,
+            # same as in ShingleFilter
+            if token.stopped:
+                continue
+
             # Save the original text of this token
             text = token.text
             if prev_text is None:
